@@ -4,7 +4,7 @@ This file implements additional functions that are visible in the module.
 
 import torch as tn
 import torch.nn.functional as tnf
-from torchtt._decomposition import mat_to_tt, to_tt, lr_orthogonal, round_tt, rl_orthogonal, QR, SVD, rank_chop, _norm2
+from torchtt._decomposition import mat_to_tt, to_tt, lr_orthogonal, round_tt, rl_orthogonal, QR, SVD, rank_chop, _norm2, _unit_cores
 from torchtt._division import amen_divide
 import numpy as np
 import math
@@ -552,10 +552,16 @@ def dot(a, b, axis=None):
         result = tn.tensor([[1.0]], dtype=a.cores[0].dtype,
                            device=a.cores[0].device)
 
+        # the chain is evaluated on cores of unit size (constant powers of two): for badly balanced cores the partial products
+        # under- / overflow although the inner product is an ordinary number
+        a_cores, fa = _unit_cores(a.cores)
+        b_cores, fb = _unit_cores(b.cores)
+        with np.errstate(over='ignore'):
+            scale = float(np.float64(2.0)**np.float64(np.sum(np.log2(fa)) + np.sum(np.log2(fb))))
         for i in range(len(a.N)):
             result = tn.einsum('ab,aim,bin->mn', result,
-                               a.cores[i], tn.conj(b.cores[i]))
-        result = tn.squeeze(result)
+                               a_cores[i], tn.conj(b_cores[i]))
+        result = tn.squeeze(result) * scale
     else:
         # partial case
         if a.is_ttm or b.is_ttm:
@@ -615,7 +621,13 @@ def bilinear_form(x, A, y):
         raise ShapeMismatch(
             "Check the shapes. Required is x.N == A.M and y.N == A.N.")
     d = len(x.N)
-    return bilinear_form_aux(x.cores, A.cores, y.cores, d)
+    # evaluated on cores of unit size (see dot)
+    x_cores, fx = _unit_cores(x.cores)
+    A_cores, fA = _unit_cores(A.cores)
+    y_cores, fy = _unit_cores(y.cores)
+    with np.errstate(over='ignore'):
+        scale = float(np.float64(2.0)**np.float64(np.sum(np.log2(fx)) + np.sum(np.log2(fA)) + np.sum(np.log2(fy))))
+    return bilinear_form_aux(x_cores, A_cores, y_cores, d) * scale
 
 
 def elementwise_divide(x, y, eps=1e-12, starting_tensor=None, nswp=50, kick=4, local_iterations=40, resets=2, preconditioner=None, verbose=False):
